@@ -15,13 +15,16 @@ Empty == <<0, 0>>
 Other(d) == 3 - d
 
 Flip(x) == IF x = 1 THEN 2 ELSE 1          \* the function handed to map / map_error
-DefaultOf(kind) == IF kind = "expected" THEN <<1, 0>> ELSE Empty
+DefaultOf(kind) == IF kind \in {"expected", "expected_void"} THEN <<1, 0>> ELSE Empty
 
 Names(kind) ==
   CASE kind = "optional" -> {"default", "value", "value_copy", "value_conv", "null", "copy_construct", "move_construct", "copy_assign", "move_assign",
                              "assign_null", "assign_value", "assign_conv", "assign_conv_copy", "emplace"}
     [] kind = "expected" -> {"default", "value", "error", "copy_construct", "move_construct", "copy_assign", "move_assign",
                              "unwrap", "map", "map_error"}
+    \* expected<E, void>: success (tag 1, no value) or an error
+    [] kind = "expected_void" -> {"default", "success", "error", "copy_construct", "move_construct", "copy_assign", "move_assign",
+                                  "unwrap", "map_error"}
     [] kind = "variant" -> {"default", "value", "copy_construct", "move_construct", "copy_assign", "move_assign", "emplace"}
     [] kind = "manual_box" -> {"value", "value_with", "destruct"}     \* initialize(args) / construct_with(f) / destruct()
 
@@ -29,8 +32,8 @@ Names(kind) ==
 Legal(kind, op, st) ==
   CASE kind = "manual_box" /\ op.name \in {"value", "value_with"} -> st[op.d][1] = 0        \* initialize() on an uninitialised box
     [] kind = "manual_box" /\ op.name = "destruct" -> st[op.d][1] = 1
-    [] kind = "expected" /\ op.name = "error" -> op.x # 0                 \* E{} means "no error"
-    [] kind = "expected" /\ op.name = "unwrap" -> st[op.d][1] = 1           \* unwrap() of an error is a contract violation
+    [] kind \in {"expected", "expected_void"} /\ op.name = "error" -> op.x # 0                 \* E{} means "no error"
+    [] kind \in {"expected", "expected_void"} /\ op.name = "unwrap" -> st[op.d][1] = 1           \* unwrap() of an error is a contract violation
     [] OTHER -> TRUE
 
 \* alternative index used by value / emplace (1 for everything but variant)
@@ -39,7 +42,7 @@ Alt(kind, op) == IF kind = "variant" THEN op.i ELSE 1
 Eff(kind, op, st) ==
   LET d == op.d
       o == Other(op.d) IN
-  CASE op.name = "default" -> [st EXCEPT ![d] = DefaultOf(kind)]
+  CASE op.name \in {"default", "success"} -> [st EXCEPT ![d] = DefaultOf(kind)]
     \* (value: from an rvalue T; value_copy: from a const T lvalue; value_conv: from a value of another, convertible type)
     [] op.name \in {"value", "value_with", "value_copy", "value_conv", "emplace", "assign_value"} -> [st EXCEPT ![d] = <<Alt(kind, op), op.x>>]
     [] op.name \in {"null", "assign_null", "destruct"} -> [st EXCEPT ![d] = Empty]
